@@ -80,7 +80,7 @@ def one_language(ctx, li, spec, ops, listed, top, bottom):
     except RecursionError:
         ctx.count("canon_recursion_error")
         return
-    canon = [G.py_to_data(t, ops) for t in lang.canon]
+    canon = sorted(G.py_to_data(t, ops) for t in lang.canon)
     if len(canon) > 150:
         ctx.count("canon_too_large_skipped")
         return
